@@ -329,6 +329,13 @@ def ObsEq : List Res → List Res → Prop
   | a :: as, b :: bs => ResEq a b ∧ ObsEq as bs
   | _, _ => False
 
+/-- the operation may change what is stored under key `k` (progress of the live process never does) -/
+def touches (k : Key) : Op → Bool
+  | .save p t => (p, t) = k
+  | .del p t => (p, t) = k
+  | .delp p => p = k.1
+  | _ => false
+
 /-! ## The side condition of the property -/
 
 /-- characters that separate the pieces of a pickle path: the `.` of `pickle_filename` and the path separator -/
